@@ -125,7 +125,7 @@ def check(tier, seed):
         else:
             key = death_key(r) if r.get('death') else r['key']
             found.setdefault(key, (b0, r))
-    for key, (b, r) in sorted(found.items()):
+    for key, (b, r) in checks.cap_keys(rep, found):
         exe = exes[b]
         res = run.run_once(exe, base + ['--emit-plan', str(r['run'])])
         plan = '\n'.join(res['out']) + '\n'
